@@ -32,6 +32,63 @@ def c_sum_case(s):
         cnat(s['failed']), cnat(s['skipped']), cnat(s['num']))
 
 
+def c_viols(f, keys):
+    """violations of file f as Coq [viol]s; the key is shortened to a digest (the Coq side only compares)"""
+    return clist('{| v_file := %s; v_key := %s |}' % (cstr(f), cstr(hashlib.sha1(k.encode()).hexdigest()[:10])) for k in keys)
+
+
+def c_ops_case(c):
+    rows = clist('{| or_rule := %s; or_file := %s; or_off := %s; or_on := %s |}' % (
+        cstr(r['rule']), cstr(r['file']),
+        clist('{| v_file := %s; v_key := %s |}' % (cstr(v['file']), cstr(hashlib.sha1(v['key'].encode()).hexdigest()[:10])) for v in r['off']),
+        clist('{| v_file := %s; v_key := %s |}' % (cstr(v['file']), cstr(hashlib.sha1(v['key'].encode()).hexdigest()[:10])) for v in r['on']))
+        for r in c['ops'])
+    runs = clist('{| ro_n := %s; ro_file := %s; ro_viol := %s |}' % (cnat(len(s['files'])), cstr(f), c_viols(f, s['per_file'][f]))
+                 for s in c['subsets'] if not s.get('err') for f in s['files'])
+    return '{| oc_table := %s; oc_runs := %s |}' % (rows, runs)
+
+
+SEC_RE = re.compile(r'^\*\*(Avoid|Prefer)\*\*\s*$')
+
+
+def docs_avoid_examples(repo):
+    """the rego blocks of the **Avoid** section of every docs/rules/<category>/<rule>.md of the tree under test:
+    a broad sample of modules that make ordinary rules report something"""
+    out = []
+    for path in sorted(glob.glob(os.path.join(repo, 'docs', 'rules', '*', '*.md'))):
+        cat, rule = path.split(os.sep)[-2], os.path.basename(path)[:-3]
+        sec, fence, acc, n = None, None, [], 0
+        try:
+            lines = open(path, encoding='utf-8', errors='replace').read().split('\n')
+        except OSError:
+            continue
+        for ln in lines:
+            if fence is not None:
+                if ln.strip().startswith('```'):
+                    if sec == 'Avoid' and fence == 'rego' and acc:
+                        n += 1
+                        if not any(l.startswith('package ') for l in acc):     # a fragment: give it a package
+                            acc = ['package policy', ''] + acc
+                        out.append({'name': 'docs/%s/%s_%d.rego' % (cat, rule.replace('-', '_'), n),
+                                    'content': '\n'.join(acc) + '\n', 'source': 'docs'})
+                    fence, acc = None, []
+                else:
+                    acc.append(ln)
+                continue
+            m = SEC_RE.match(ln)
+            if m:
+                sec = m.group(1)
+            elif ln.startswith('## '):
+                sec = None
+            elif ln.strip().startswith('```'):
+                fence = ln.strip()[3:].strip()
+    return out
+
+
+def rule_of_key(k):
+    return k.split('@', 1)[0]
+
+
 def gen_consts():
     """the constants goshape extracted from the tree of this run (same source as Gen/WalkConsts.v)"""
     p = subprocess.run([sys.executable, os.path.join(vlib.VERIF, 'tools', 'gen', 'linter_shape.py'), '--json'],
@@ -107,7 +164,7 @@ def run(ctx):
     h = vlib.build_harness(ctx, 'c02')
     walk = gen_consts()
     extra = [s for s in walk.get('skip_names', []) if s not in SPEC_SKIP and '/' not in s and ',' not in s and s]
-    fixed = {'trees': [], 'compose': []}
+    fixed = {'trees': [], 'compose': [], 'pool': []}
     only = False
     if ctx.replay:
         rp = json.load(open(ctx.replay))
@@ -125,6 +182,9 @@ def run(ctx):
                 fixed['trees'].append(c)
             elif 'ws' in c:
                 fixed['compose'].append(c['ws'])
+            elif 'pool' in c:
+                fixed['pool'] += [dict(x, source='trigger') for x in c['pool']]
+        fixed['pool'] += docs_avoid_examples(vlib.REPO)
     fixed_path = os.path.join(ctx.tmp, 'fixed.json')
     json.dump(fixed, open(fixed_path, 'w'))
     out = os.path.join(ctx.tmp, 'c02.jsonl')
@@ -135,19 +195,29 @@ def run(ctx):
     recs = [json.loads(l) for l in open(out)]
     trees = [r for r in recs if r['kind'] == 'tree']
     composes = [r for r in recs if r['kind'] == 'compose']
+    pool = ([r for r in recs if r['kind'] == 'pool'] or [None])[0]
     sums = [t['summary'] for t in trees if t.get('summary')]
     for c in composes:
         sums += [s for s in (c.get('summaries') or []) if s]
 
     # ---- the property on the implementation's own outputs --------------------------------------
     explained = set()
-    bad_trees = sorted([t for t in trees if t['spec_bad']], key=lambda t: tree_size(t['tree']))
+    def bad_class(t):
+        """the kind of contradiction (the text before the file name); a file that is not discovered at all first"""
+        w = t.get('spec_bad') or ''
+        for i, pre in enumerate(('silently skipped', 'an argument does not exist', 'every argument exists', 'unexpectedly included', 'discovered ')):
+            if w.startswith(pre):
+                return i, pre
+        return 9, w.split(':')[0][:12]
+
+    bad_trees = sorted([t for t in trees if t['spec_bad']], key=lambda t: (bad_class(t)[0], tree_size(t['tree'])))
     for t in bad_trees:
         explained.add(t['id'])
     for t in bad_trees[:1]:
-        small = shrink_discovery(ctx, h, extra, shrink_tree(t), lambda r: bool(r.get('spec_bad')))
+        cls = bad_class(t)[1]     # shrinking keeps the kind of contradiction
+        small = shrink_discovery(ctx, h, extra, shrink_tree(t), lambda r: (r.get('spec_bad') or '').startswith(cls))
         rr = replay_trees(ctx, h, extra, [small])
-        r = rr[0] if rr and rr[0].get('spec_bad') else t
+        r = rr[0] if rr and (rr[0].get('spec_bad') or '').startswith(cls) else t
         vlib.violation(ctx, {'kind': 'discovery-vs-spec', 'case': shrink_tree(r), 'what': r['spec_bad'],
                              'filtered': r['filtered'], 'expected': r['spec'], 'filter_error': r['filt_err'],
                              'n_cases_contradicting_the_specification': len(bad_trees)},
@@ -159,14 +229,75 @@ def run(ctx):
             vlib.violation(ctx, {'kind': 'summary-inconsistent', 'case': shrink_tree(t), 'what': s['bad'], 'summary': s},
                            signature={'kind': 'summary-inconsistent', 'key': json.dumps(shrink_tree(t), sort_keys=True)})
             break
-    for c in sorted(composes, key=lambda c: len(c['ws']['files'])):
+    def ws_sig(ws):
+        return hashlib.sha1(json.dumps(ws['files'], sort_keys=True).encode()).hexdigest()[:16]
+
+    reported_compose = False
+    for c in sorted(composes, key=lambda c: (len((c.get('min_ws') or c['ws'])['files']), c['id'])):
         bad_sum = [s for s in (c.get('summaries') or []) if s and s['bad']]
         if c['mismatch'] or bad_sum:
             kind = 'batch-vs-single' if c['mismatch'] else 'summary-inconsistent'
-            vlib.violation(ctx, {'kind': kind, 'case': {'ws': c['ws']},
+            ws = c.get('min_ws') if c['mismatch'] and c.get('min_ws') else c['ws']
+            vlib.violation(ctx, {'kind': kind, 'case': {'ws': ws}, 'diff': c.get('diff'), 'source': c.get('source'),
                                  'what': (c['mismatch'] or [bad_sum[0]['bad']])[0], 'all': c['mismatch'][:10]},
-                           signature={'kind': kind, 'key': hashlib.sha1(json.dumps(c['ws']['files'], sort_keys=True).encode()).hexdigest()[:16]})
+                           signature={'kind': kind, 'key': ws_sig(ws)})
+            reported_compose = True
             break
+
+    # H_ops / H_loc of c02_single_file_compose, rule by rule, on the lint query itself (no Go aggregation involved)
+    ops_bad = []
+    for c in composes:
+        by_name = {f['name']: f for f in c['ws']['files']}
+        for r in c.get('ops') or []:
+            off = sorted(v['key'] for v in r['off'])
+            on = sorted(v['key'] for v in r['on'])
+            loc = [v for v in r['off'] + r['on'] if v['file'] != r['file']]
+            if off != on or loc:
+                ops_bad.append((c, r, by_name.get(r['file']), off, on, loc))
+    ops_bad.sort(key=lambda t: (len(t[2]['content']) if t[2] else 0, t[1]['rule']))
+    for c, r, f, off, on, loc in ops_bad[:1]:
+        # the module plus the smallest other module of its workspace: linting the two together is a multi-file run
+        others = sorted((x for x in c['ws']['files'] if f and x['name'] != f['name']), key=lambda x: (len(x['content']), x['name']))
+        ws = dict(c['ws'], files=([f] + others[:1]) if f else c['ws']['files'])
+        kind = 'ops-dependence' if off != on else 'report-outside-file'
+        vlib.violation(ctx, {'kind': kind, 'case': {'ws': ws}, 'rule': r['rule'], 'file': r['file'],
+                             'hypothesis': ('H_ops' if off != on else 'H_loc') + ' of c02_single_file_compose (Props/C02.v) for this rule',
+                             'what': ('rule %s, file %s: the lint query reports %s without and %s with "collect" among '
+                                      'input.regal.operations' % (r['rule'], r['file'], off, on)) if off != on else
+                                     ('rule %s evaluated on %s reports in another file: %s' % (r['rule'], r['file'], loc)),
+                             'rules_affected': sorted({t[1]['rule'] for t in ops_bad}), 'n_rows': len(ops_bad)},
+                       signature={'kind': kind, 'key': r['rule'] + '|' + ws_sig(ws)})
+
+    # every rule that defines both report and aggregate must have been triggered (else H_ops is untested for it)
+    rules_info = (pool or {}).get('rules') or []
+    both = sorted(r['rule'] for r in rules_info if r['report'] and r['aggregate'])
+    alone_trig, multi_cmp, ops_rows = {}, {}, {}
+    for c in composes:
+        singles = {s['files'][0]: s for s in c['subsets'] if len(s['files']) == 1 and not s.get('err')}
+        for f, sr in singles.items():
+            for rl in {rule_of_key(k) for k in sr['per_file'][f]}:
+                alone_trig.setdefault(rl, set()).add(hashlib.sha1(next(x['content'] for x in c['ws']['files'] if x['name'] == f).encode()).hexdigest())
+        for sr in c['subsets']:
+            if len(sr['files']) < 2 or sr.get('err'):
+                continue
+            for f in sr['files']:
+                if f in singles:
+                    for rl in {rule_of_key(k) for k in singles[f]['per_file'][f]}:
+                        multi_cmp[rl] = multi_cmp.get(rl, 0) + 1
+        for r in c.get('ops') or []:
+            if r['off']:
+                ops_rows[r['rule']] = ops_rows.get(r['rule'], 0) + 1
+    h_ops_tested = {rl: {'distinct_modules_triggering_it_alone': len(alone_trig.get(rl, ())),
+                         'multi_file_runs_compared_with_alone': multi_cmp.get(rl, 0),
+                         'query_rows_with_and_without_collect': ops_rows.get(rl, 0)} for rl in both}
+    if not only:
+        untested = [rl for rl in both if not alone_trig.get(rl) or not multi_cmp.get(rl) or not ops_rows.get(rl)]
+        if untested or not pool:
+            vlib.violation(ctx, {'kind': 'h_ops-untested', 'rules': untested,
+                                 'what': 'rules defining both `report` and `aggregate` whose single-file findings no module of the '
+                                         'composition workspaces triggers: H_ops of c02_single_file_compose is not tested for them '
+                                         '(add a trigger module to corpus/C02/pool_triggers.json)' if pool else
+                                         'the harness did not report the rules of the bundle'}, no_input=True)
 
     # ---- correspondence with the model -----------------------------------------------------------
     v = ['From Regal Require Import Check.C02Check.', 'Open Scope N_scope.',
@@ -176,7 +307,11 @@ def run(ctx):
          'Definition R2 := Eval vm_compute in failing1 (fun c => scanned_agrees (fst c) (snd c)) 0 trees.',
          'Definition R3 := Eval vm_compute in failing1 summary_agrees 0 sums.',
          'Definition R4 := Eval vm_compute in failing1 (fun c => in_model (fst c)) 0 trees.',
-         'Print R1. Print R2. Print R3. Print R4.']
+         'Definition opsc : list ops_case := ' + clist(c_ops_case(c) for c in composes) + '.',
+         'Definition R5 := Eval vm_compute in failing1 hops_holds 0 opsc.',
+         'Definition R6 := Eval vm_compute in failing1 hloc_holds 0 opsc.',
+         'Definition R7 := Eval vm_compute in failing1 router_agrees 0 opsc.',
+         'Print R1. Print R2. Print R3. Print R4. Print R5. Print R6. Print R7.']
     rc, cout = vlib.coq_eval(ctx, 'Cases_C02', '\n'.join(v))
     if rc != 0:
         raise RuntimeError('case evaluation failed:\n' + cout[-3000:])
@@ -184,6 +319,9 @@ def run(ctx):
     r2 = vlib.parse_nat_list(cout, 'R2') or []
     r3 = vlib.parse_nat_list(cout, 'R3') or []
     r4 = vlib.parse_nat_list(cout, 'R4') or []
+    r5 = vlib.parse_nat_list(cout, 'R5') or []
+    r6 = vlib.parse_nat_list(cout, 'R6') or []
+    r7 = vlib.parse_nat_list(cout, 'R7') or []
     for name, idxs, rel in (('discover', r1, 'Check.C02Check.discover_agrees: FilterIgnoredPaths = Model.Discover.discover (exact list)'),
                             ('scanned', r2, 'Check.C02Check.scanned_agrees: files_scanned / error of Linter.Lint = model')):
         cand = sorted([trees[i] for i in idxs if trees[i]['id'] not in explained], key=lambda t: tree_size(t['tree']))
@@ -194,6 +332,17 @@ def run(ctx):
     if r3 and not any(s['bad'] for s in sums):
         vlib.violation(ctx, {'kind': 'correspondence', 'relation': 'Check.C02Check.summary_agrees (finalize summary vs observed report)',
                              'case': sums[r3[0]]}, no_input=True)
+    # the Coq side must see exactly the H_ops / H_loc failures found above ...
+    py_bad = sorted({composes.index(t[0]) for t in ops_bad})
+    if sorted(set(r5) | set(r6)) != py_bad:
+        vlib.violation(ctx, {'kind': 'correspondence', 'relation': 'Check.C02Check.hops_holds / hloc_holds vs the harness',
+                             'coq': sorted(set(r5) | set(r6)), 'harness': py_bad}, no_input=True)
+    # ... and the router model over the tabulated rule bodies must predict every observed run
+    if r7 and not reported_compose and not ops_bad:
+        c = composes[r7[0]]
+        vlib.violation(ctx, {'kind': 'correspondence', 'relation': 'Check.C02Check.router_agrees: per-file violations of Linter.Lint over n files '
+                             '= Model.Router.router_report over the rule bodies the lint query yields for the file (collect iff n > 1)',
+                             'case': {'ws': c['ws']}, 'n_mismatches': len(r7), 'ops_err': c.get('ops_err')}, no_input=True)
     proof_gate(ctx, 'c02_walk_constants_of_this_tree depends on Gen/WalkConsts.v (skip-directory names and suffix extracted from '
                     'internal/io/io.go and pkg/config/filter.go)')
 
@@ -206,6 +355,10 @@ def run(ctx):
         hist[k] = hist.get(k, 0) + 1
     distinct = len({json.dumps(shrink_tree(t), sort_keys=True) for t in trees if not t['filt_err'] and len(t['filtered']) > 0})
     nsub = sum(len(c['subsets']) for c in composes)
+    trig_rules = sorted(alone_trig)
+    src_hist = {}
+    for c in composes:
+        src_hist[c.get('source', '?')] = src_hist.get(c.get('source', '?'), 0) + 1
     cov = proof_coverage(ctx, {
         'evaluations': len(trees) + nsub + len(sums),
         'distinct_nontrivial': distinct + sum(1 for c in composes for s in c['subsets'] if len(s['files']) >= 2),
@@ -214,7 +367,15 @@ def run(ctx):
                 '(exact discovered list) and with an independent Go rendering of the specification',
         'tree_cases': len(trees), 'tree_cases_linted': sum(1 for t in trees if t['linted']), 'tree_cases_out_of_model': len(r4),
         'compose_cases': len(composes), 'subsets_linted': nsub, 'partitions_checked': sum(c['partitions'] for c in composes),
-        'reports_summary_checked': len(sums), 'extra_dir_names_from_gen': extra,
+        'reports_summary_checked': len(sums),
+        'compose_sources': src_hist,
+        'pool_modules_offered': (pool or {}).get('offered', 0), 'pool_modules_unparsable': (pool or {}).get('unparsable', []),
+        'bundled_rules': len(rules_info), 'rules_with_report_and_aggregate': both, 'h_ops_tested': h_ops_tested,
+        'rules_triggered_by_a_module_linted_alone': len(trig_rules), 'rules_triggered': trig_rules,
+        'rules_never_triggered': sorted(r['rule'] for r in rules_info if r['report'] and r['rule'] not in alone_trig),
+        'rules_probed_with_and_without_collect': len({r['rule'] for c in composes for r in (c.get('ops') or []) if r['off']}),
+        'ops_rows': sum(len(c.get('ops') or []) for c in composes), 'ops_probe_errors': sum(len(c.get('ops_err') or []) for c in composes),
+        'mismatch_hops': len(r5), 'mismatch_hloc': len(r6), 'mismatch_router': len(r7), 'extra_dir_names_from_gen': extra,
         'mismatch_discover': len(r1), 'mismatch_scanned': len(r2), 'mismatch_summary': len(r3),
         'spec_contradictions': len(bad_trees), 'histogram': hist,
         'samples': [shrink_tree(t) for t in trees[:1]] + [{'filtered': trees[0]['filtered']}] if trees else [],
@@ -223,8 +384,10 @@ def run(ctx):
     return vlib.finish(ctx, 'proof', cov, [
         'the file system is a tree of named nodes (no symbolic links, permissions, or concurrent modification)',
         'glob matching (excludeFile/gobwas) is an oracle, tabulated per (pattern, file) with the real matcher',
-        'H_ops / H_loc of c02_single_file_compose (report rules ignore the collect operation and report in their own file) are tested '
-        'by the batch-vs-single comparison, not proved',
+        'H_ops / H_loc of c02_single_file_compose (every rule the router runs yields the same findings with and without the collect '
+        'operation, located in its own file) are tested, not proved: rule by rule on the lint query evaluated twice per module '
+        '(hops_holds/hloc_holds), and end to end by the batch-vs-single comparison of Linter.Lint runs; the rules defining both '
+        'report and aggregate are listed under rules_with_report_and_aggregate and each must have been triggered',
         'files_failed counts the empty file name of location-less aggregate violations as a file (so it can exceed files_scanned); '
         'the theorem states it as the number of distinct Location.File values',
     ])
